@@ -18,6 +18,8 @@ type C01Case struct {
 	Graph       Graph        `json:"graph"`
 	Profile     string       `json:"profile"`
 	Data        string       `json:"data"`
+	// the node tree yaml.v3 reads from Profile (same encoding as the `parse` cases): what the front-end model is run on
+	Tree any `json:"tree,omitempty"`
 }
 
 type ruleGen struct {
@@ -334,6 +336,7 @@ func genC01(g *G, n int, out io.Writer, stream string) {
 		prof := ProfileSpec{Name: fmt.Sprintf("c01_%s_%d", stream, i), Atoms: c.Atoms, Paths: c.Paths, Validations: c.Validations}
 		c.Profile = prof.Render()
 		c.Data = c.Graph.RenderFlat()
+		c.Tree = treeOf(c.Profile)
 		enc.Encode(c)
 	}
 }
